@@ -30,6 +30,10 @@ CHECKS = {
    text="The full matrix of handler signatures built with reflect.MakeFunc (0-2 parameters over 7 native types, 3 over 3; 10 result shapes incl. a non-error type named 'error') x declarations (matching / single-position mismatch / shorter / longer inputs; output nil or one of 7; outputsError) for both constructors is compared with a reference acceptance predicate; every accepted function is called with 0..4 arguments and with an error-returning handler, checking the returned value, function-reported vs call-shape errors and 'error not panic' on wrong arity.",
    note="Trusted: the reference predicate in harness/c18 (type identity with the schemas' reflected types; error = the predeclared interface).",
    technique="exhaustive enumeration of the (signature x declaration x argument count) matrix against a reference predicate", design="DESIGN.md §7 C18"),
+ "C19": dict(level="exploration", engine="U+C",
+   text="gen.go is compiled from the working tree with every range-over-map routed through the map-order seam; for all 1893 documents with 0-2 objects x 0-2 properties x 6 type ids and 3 argument forms, every permutation of every map's iteration order is executed (twice): no panic, output parses with go/parser, exactly one struct per non-ignored object with one json-tagged field per property and the stated type mapping, and byte-identical output across all orders and runs.",
+   note="Trusted: the instrumenter's maporder/entry rewrites, the document generator and reference description in harness/c19; names are lower-case identifiers.",
+   technique="exhaustive enumeration of small input documents x exhaustive exploration of map-iteration orders (environment nondeterminism) of the implementation", design="DESIGN.md §4.1, §7 C19"),
 }
 NOT_YET = {}
 props = [json.loads(l)["id"] for l in open("/verif/properties.jsonl")]
